@@ -1155,6 +1155,33 @@ def fixed_bsi_episodes(g):
             cq = g.fresh("fx")
             g.emit("bclone %s %s" % (cq, q))
             g.emit("bgets %s 4 5 4 5 21 21" % cq)
+        # an AUTO-SIZED receiver merged (ParOr) / added (Add) with participants created with declared ranges — and the other way round —
+        # then values far wider than anything seen so far are stored on the receiver with every setter
+        for decl_recv in (False, True):
+            rcv, p1, p2 = g.fresh("fr"), g.fresh("fr"), g.fresh("fr")
+            g.emit("bnew %s %s%s" % (rcv, w, " 1000000 -1000000" if decl_recv else ""))
+            g.emit("bnew %s %s%s" % (p1, w, "" if decl_recv else " 255 0"))
+            g.emit("bnew %s %s%s" % (p2, w, "" if decl_recv else " 100 -100"))
+            g.emit("bset %s 1 3" % rcv)
+            for i, v in enumerate([5, 200, 77]):
+                g.emit("bset %s %d %d" % (p1, 10 + i, v))
+            for i, v in enumerate([-5, 99, 0]):
+                g.emit("bset %s %d %d" % (p2, 20 + i, v))
+            g.emit("bparor %s 2 %s %s" % (rcv, p1, p2))
+            g.emit("bdump %s" % rcv)
+            for c, v in [(30, 70000), (31, -5000), (10, 123456), (32, 999999)]:
+                g.emit("bset %s %d %d" % (rcv, c, v))
+                g.emit("bget %s %d" % (rcv, c))
+            if w == "64":
+                g.emit("fs64 %s 40 41" % (rcv + "f"))
+            else:
+                g.emit("fs32 %s 40 41" % (rcv + "f"))
+            g.emit("bsetmany %s %s 123456" % (rcv, rcv + "f"))
+            g.emit("bdump %s" % rcv)
+            c2 = g.fresh("fr")
+            g.emit("bclone %s %s" % (c2, rcv))
+            g.emit("bset %s 50 -777777" % c2)
+            g.emit("bdump %s" % c2)
         # ParOr of several participants WIDER than the receiver, in every order of their widths (disjoint columns)
         for order in ((0, 1, 2), (2, 1, 0), (1, 2, 0), (2, 0, 1), (1, 0, 2)):
             rcv = g.fresh("fp")
